@@ -3,7 +3,7 @@
 # is applied to a scratch copy of /repo (never to /repo itself); minisim is built against the copy and
 # the targeted check must report a violation in the quick budget.  The unchanged copy must pass.
 #
-#   tools/selftest.sh [--with-tests] [--cross] [--tier quick|thorough] [--regex RE] [--no-baseline] [pattern]
+#   tools/selftest.sh [--with-tests] [--cross] [--cross-runs N] [--shard i/n] [--tier quick|thorough] [--regex RE] [--no-baseline] [pattern]
 #
 # --cross additionally runs the checks of the OTHER properties against each change and prints a CROSS line when
 # one of them alarms (a check should only alarm when its own property is broken).
@@ -12,13 +12,15 @@
 # (i.e. the change is one the existing tests cannot see).
 set -u
 HERE="$(cd "$(dirname "${BASH_SOURCE[0]}")/.." && pwd)"
-WITH_TESTS=0; TIER=quick; PATTERN=""; CROSS=0; REGEX=""; BASELINE=1
+WITH_TESTS=0; TIER=quick; PATTERN=""; CROSS=0; REGEX=""; BASELINE=1; SHARD_I=0; SHARD_N=1; CROSS_RUNS=""; COUNT=0
 while [ $# -gt 0 ]; do
   case "$1" in
     --with-tests) WITH_TESTS=1 ;;
     --cross) CROSS=1 ;;
     --tier) TIER="$2"; shift ;;
     --regex) REGEX="$2"; shift ;;
+    --shard) SHARD_I="${2%%/*}"; SHARD_N="${2##*/}"; shift ;;
+    --cross-runs) CROSS_RUNS="$2"; shift ;;
     --no-baseline) BASELINE=0 ;;
     *) PATTERN="$1" ;;
   esac
@@ -32,9 +34,12 @@ mkdir -p "$VERIF_DIR"
 cp "$HERE/known_findings.json" "$VERIF_DIR/" 2>/dev/null || true
 
 pass=0; fail=0; report=""
-run_check() { # prop -> exit code, output in $SCRATCH/out
-  "$HERE/check" "$1" "$TIER" >"$SCRATCH/out" 2>&1
+run_check() { # prop [extra args] -> exit code, output in $SCRATCH/out
+  local p="$1"; shift
+  "$HERE/check" "$p" "$TIER" "$@" >"$SCRATCH/out" 2>&1
 }
+# --shard i/n: this invocation handles every n-th patch (mutants, seeded changes and controls counted together)
+in_shard() { COUNT=$((COUNT+1)); [ $(( (COUNT-1) % SHARD_N )) = "$SHARD_I" ]; }
 
 echo "== baseline (unchanged copy) =="
 for p in C13 C14 C15 C16; do
@@ -54,6 +59,7 @@ done
 for f in $list; do
   case "$f" in *"$PATTERN"*) ;; *) continue ;; esac
   if [ -n "$REGEX" ] && ! [[ "$f" =~ $REGEX ]]; then continue; fi
+  in_shard || continue
   if [[ "$f" == */seeded/* ]]; then
     dir="$(dirname "$f")"; name="seeded/$(basename "$dir")"
     props="$(jq -r '.property | if type=="array" then .[] else . end' "$dir/meta.json" | tr '\n' ' ')"
@@ -87,7 +93,7 @@ for f in $list; do
   if [ $CROSS = 1 ]; then
     for p in C13 C14 C15 C16; do
       case " $props " in *" $p "*) continue ;; esac
-      run_check "$p"; code=$?
+      if [ -n "$CROSS_RUNS" ]; then run_check "$p" --runs "$CROSS_RUNS" --no-evidence; else run_check "$p"; fi; code=$?
       [ $code = 0 ] || cross="$cross $p(exit $code:$(grep -o 'clause=[a-z_0-9]*' "$SCRATCH/out" | sort -u | tr '\n' ' '))"
     done
     [ -n "$cross" ] && echo "CROSS $name also alarms:$cross"
@@ -109,6 +115,7 @@ for f in "$HERE"/controls/*.diff; do
   [ -e "$f" ] || continue
   case "$f" in *"$PATTERN"*) ;; *) continue ;; esac
   if [ -n "$REGEX" ] && ! [[ "$f" =~ $REGEX ]]; then continue; fi
+  in_shard || continue
   name="controls/$(basename "$f" .diff)"
   if ! (cd "$SCRATCH/repo" && patch -p1 --quiet < "$f" >/dev/null 2>&1); then
     echo "FAIL $name: patch does not apply"; cfail=$((cfail+1))
